@@ -33,16 +33,21 @@ impl Run {
         Ok(cp)
     }
 
-    // Copy all current state into the file.
+    // Copy all current state into the file. The record is written to a sibling
+    // file and renamed into place, so that neither a reader nor an interrupted
+    // run ever finds it truncated or half written.
     pub(crate) fn save(&mut self) -> Result<(), MonorailError> {
+        let tmp_path = self.path.with_extension("json.tmp");
         let mut file = fs::OpenOptions::new()
             .write(true)
             .truncate(true)
             .create(true)
-            .open(&self.path)?;
+            .open(&tmp_path)?;
 
         let data = serde_json::to_vec(self)?;
         file.write_all(&data)?;
+        drop(file);
+        fs::rename(&tmp_path, &self.path)?;
         Ok(())
     }
 }
